@@ -45,6 +45,11 @@ def project(o):
         "cov": None if cov is None else {"fr": cov.frame if isinstance(cov.frame, str) else cov.frame.name,
                                           "tr": float(np.trace(np.asarray(cov, float)[:3, :3]))},
         "date": o.date, "name": o.name,
+        # the derived quantities reported for THIS handle (read on every live handle after every action, so that any copy made
+        # later comes from an object whose `infos` has been consulted)
+        "r_infos": float(o.infos.r), "v_infos": float(o.infos.v),
+        "r_own": float(np.linalg.norm(np.asarray(o.copy(form="cartesian"), dtype=float)[:3])),
+        "v_own": float(np.linalg.norm(np.asarray(o.copy(form="cartesian"), dtype=float)[3:])),
     }
 
 
@@ -205,7 +210,9 @@ def one(beh, res, clause, kinds):
                 checks = [("kind", p["kind"] == m["kind"]), ("form", p["form"] == m["form"]), ("frame", p["frame"] == m["frame"]),
                           ("values", bool(same_val)), ("maneuvers", p["nmans"] == m["nmans"]), ("list metadata", p["lst"] == m["lst"]),
                           ("scalar metadata", p["scal"] == m["scal"]), ("covariance", bool(cov_ok)),
-                          ("date/name", p["date"] == DATE and p["name"] == "sat")]
+                          ("date/name", p["date"] == DATE and p["name"] == "sat"),
+                          ("derived quantities (infos) are those of the handle's own coordinates",
+                           abs(p["r_infos"] - p["r_own"]) <= 1e-9 * p["r_own"] and abs(p["v_infos"] - p["v_own"]) <= 1e-9 * p["v_own"])]
                 bad = [n for n, okk in checks if not okk]
                 clause("after every action every live handle shows exactly the state of the value-semantics model", not bad, key,
                        f"handle {k} after {act}: {bad} differ (real form={p['form']} frame={p['frame']} mans={p['nmans']} list={p['lst']} "
